@@ -357,6 +357,17 @@ def arity_case(passed, declared, nlocals, body):
     return fixed_case(cid, "", ops, fns=fns, inject="injectsafe t tgt %d" % passed)
 
 
+def arity_fp_case(passed, declared, nlocals, body):
+    """the driver's safe_call_function_pointer() (socket callbacks) of (: tgt :) with surplus / missing arguments"""
+    params = ", ".join("int a%d" % i for i in range(declared))
+    locs = " ".join("int l%d;" % i for i in range(nlocals))
+    stmt, bops = ('error ("boom1\\n");', "(raise boom1)") if body == "raise" else ('VL ("say x");', "(say x)")
+    fns = ["void tgt (%s) { %s %s }" % (params, locs, stmt), "mixed getfp () { return (: tgt :); }"]
+    ops = "(safefp t %d %d (tmp %d %s))" % (passed, declared, nlocals, bops)
+    return fixed_case("b-arity-safefp-p%d-d%d-l%d-%s" % (passed, declared, nlocals, body), "", ops, fns=fns,
+                      inject="injectsafefp t getfp %d" % passed)
+
+
 def depth_case(action, maxdepth, frames_at_action, outer_catch):
     """recursion so that the action runs with exactly `frames_at_action` frames on the control stack"""
     stmt, aops = DEPTH_ACTIONS[action]
@@ -512,6 +523,8 @@ class C05(Prop):
                 for nlocals in (0, 4):
                     for body in ("say", "raise", "call"):
                         B.append(arity_case(passed, declared, nlocals, body))
+                    for body in ("say", "raise"):
+                        B.append(arity_fp_case(passed, declared, nlocals, body))
         # the control-stack limit: every kind of frame push / save_context placed at exactly limit-2, limit-1 and limit
         # frames (save_context refuses at `limit` frames and must leave the chain alone)
         for action in sorted(DEPTH_ACTIONS):
